@@ -1,0 +1,23 @@
+//go:build verif
+
+package meta
+
+import (
+	"slices"
+
+	"github.com/nspcc-dev/bbolt"
+)
+
+// VerifBolt returns the underlying bolt handle (verification harness only).
+func (db *DB) VerifBolt() *bbolt.DB { return db.boltDB }
+
+// VerifMetaVersions returns the current format version and the versions an
+// upgrade is implemented from, ascending (verification harness only).
+func VerifMetaVersions() (uint64, []uint64) {
+	var from []uint64
+	for v := range migrateFrom {
+		from = append(from, v)
+	}
+	slices.Sort(from)
+	return currentMetaVersion, from
+}
